@@ -22,11 +22,12 @@ ASSUMPTIONS = [
     "deep / wide / many-attribute trees of scale_trees()",
 ]
 
-TEXTS = ["", " ", "x", "\"\\/\b\f\n\r\t", "\u00e9", "\u2028", "\U0001F600", "\x00", "z" * 10240]
+TEXTS = ["", " ", "x", "\"\\/\b\f\n\r\t", "\u00e9", "\u2028", "\U0001F600", "\x00", "z" * 10240, "line one\r\nline two\r"]
 DICTS = [[["k", "v"]], [["k", "v"], ["l", "w"]], [["l", "w"], ["k", "v"]], [["q\"uo'te", "v"]], [["", "v"]], [["k", ""]],
          [["{u1}x", "v"], ["p:x", "w"]], [["{http://www.w3.org/XML/1998/namespace}lang", "en"], ["xml:lang", "fr"]], [["p:x", "v"]]]
 NS = [[["p", "u1"]], [["p", "u2"]], [["p", "u1"], ["q", "u3"]], [["q", "u3"], ["p", "u1"]], [["null", "u9"], ["None", "u8"]],
-      [["p", "u1"], ["q", "u1"]]]          # two prefixes for one URI
+      [["p", "u1"], ["q", "u1"]],          # two prefixes for one URI
+      [[None, "u0"], ["p", "u1"]]]         # a default namespace (key None), as an import of <x xmlns="..."> produces
 NS_PRE = [[["q", "u3"]], [["p", "u2"], ["q", "u3"]]]
 NAMES = ["b", "a:b cé"]
 
@@ -109,7 +110,11 @@ def check1(g, case, extras_first):
     s1 = gtree.snap(t)
     ids1 = [n.id for n in gtree.preorder(t)]
 
+    has_default_ns = any(pf is None for _, n_ in gtree.walk(g) for pf, _u in (n_["ns"] + (n_.get("ns_pre") or [])))
+
     def bad(kind, exp, obs, **sig):
+        if has_default_ns:
+            sig = dict(sig, default_namespace=True)       # (JSON object keys are strings: see finding F24)
         probs.append(problem(kind, case, expected=exp, observed=obs, **sig))
 
     # --- current codec -------------------------------------------------
